@@ -1,5 +1,10 @@
 package spec
 
+import (
+	"math"
+	"unsafe"
+)
+
 // Spec library: overlaid (with the package clause rewritten) on every package under
 // contract.  Everything here is ghost code: pure, total, loop bounds constant.  The
 // verifier executes these functions symbolically with the same SSA translator it uses for
@@ -52,9 +57,10 @@ func gocv_view(b, p []byte, lo, hi int) bool {
 	return &b[0] == &p[:hi][lo]
 }
 
-// gocv_sameArr: the two slices share a backing array (native: approximated by overlap).
+// gocv_sameArr: the two non-empty slices share a backing array (native: approximated by
+// overlap of their full capacities).
 func gocv_sameArr(a, b []byte) bool {
-	if cap(a) == 0 || cap(b) == 0 {
+	if len(a) == 0 || len(b) == 0 {
 		return false
 	}
 	a, b = a[:cap(a)], b[:cap(b)]
@@ -65,6 +71,30 @@ func gocv_sameArr(a, b []byte) bool {
 	}
 	for i := range b {
 		if &b[i] == &a[0] {
+			return true
+		}
+	}
+	return false
+}
+
+// gocv_strview: b is a view of the bytes of s (same memory, same length).
+func gocv_strview(b []byte, s string) bool {
+	if len(b) != len(s) {
+		return false
+	}
+	return len(s) == 0 || unsafe.StringData(s) == &b[0]
+}
+
+// gocv_strAliases: the bytes of s live in the backing array of b (impossible for
+// well-typed programs; needed because the heap model keeps strings and byte slices in one
+// element heap).
+func gocv_strAliases(s string, b []byte) bool {
+	if len(s) == 0 || cap(b) == 0 {
+		return false
+	}
+	b = b[:cap(b)]
+	for i := range b {
+		if &b[i] == unsafe.StringData(s) {
 			return true
 		}
 	}
@@ -170,12 +200,10 @@ func varintTruncated(p []byte, o int) bool {
 	return true
 }
 
-// isVarintOf: the minimal varint encoding of v sits at p[o:].
+// isVarintOf: the bytes p[o], p[o+1], ... are the minimal varint encoding of v (bounds are
+// stated separately by the cursor clauses).
 func isVarintOf(p []byte, o int, v uint64) bool {
 	n := vlen(v)
-	if o < 0 || o+n > len(p) {
-		return false
-	}
 	for i := 0; i < 10; i++ {
 		if i < n && byteAt(p, o+i) != vbyte(v, i) {
 			return false
@@ -211,3 +239,13 @@ const maxFieldNumber = 1<<29 - 1
 func validNum(num int) bool { return num >= 1 && num <= maxFieldNumber }
 
 func keyOf(num int, wt int) uint64 { return uint64(num)<<3 | uint64(wt) }
+
+func boolByte(b bool) byte {
+	if b {
+		return 1
+	}
+	return 0
+}
+
+func f32bits(f float32) uint32 { return math.Float32bits(f) }
+func f64bits(f float64) uint64 { return math.Float64bits(f) }
